@@ -52,6 +52,10 @@ class EngineStream(Stream):
                    "gap_in_lagging_input_at_startup" if case.get("kind") == "startup_gap" else "off_grid(outside the property)")
         for k in case.get("perturb", []):
             out.append(f"perturb={k}")
+        if case.get("nones"):
+            out.append("None_input_values")
+            if any(o[1] is None for o in obs["out"][:1]):
+                out.append("first_output_None")
         ci = next((i for i, a in enumerate(case["sched"]) if a[0] == "c"), len(case["sched"]))
         sent_before = sum(1 for a in case["sched"][:ci] if a[0] == "s")
         out.append("consumer_first" if sent_before == 0 else "consumer_after_some_sends")
